@@ -582,6 +582,9 @@ class Executor:
     def call_value(self, fv, args, ins=None):
         """call a function value (Closure, possibly Guarded)"""
         cs = cases_of(fv)
+        if self.task != 0:
+            from .conc import event
+            event(self, "callv")
         if len(cs) == 1:
             c = cs[0][1]
             if c is None:
